@@ -266,12 +266,70 @@ func (g *Gen) execCallPrefixed(c *ssa.CallCommon, in ssa.Instruction, rt types.T
 	}
 	g.checkCallSpecs(c, in, recv, args, prefix)
 
+	// assumed call frames (//verif:call-preserves): remember the pre-call values
+	type saved struct {
+		t   frameTarget
+		val string
+	}
+	var keep []saved
+	if g.con != nil && !isBuiltin(c) {
+		names := callNames(c)
+		for _, psp := range g.con.Preserves {
+			match := false
+			for _, n := range names {
+				if prefix+n == psp.Sel {
+					match = true
+				}
+			}
+			if !match {
+				continue
+			}
+			g.callSelCount["preserves:"+psp.Sel]++
+			g.assumptions = appendUnique(g.assumptions, fmt.Sprintf("%s: assumed frame at calls of %s (%s) because %q", g.fnName, psp.Sel, psp.Src, psp.Reason))
+			sc := g.specCtx(g.env, g.cur, g.init)
+			for _, te := range psp.Targets {
+				ts, err := sc.lvalTargets(te)
+				if err != nil {
+					g.fail("call-preserves %s: %v", te, err)
+				}
+				for _, t := range ts {
+					h := g.heapTerm(g.cur, t.Comp)
+					v := sel(h, t.Ref)
+					if t.Idx != "" {
+						v = sel(v, t.Idx)
+					}
+					nm := g.freshConst("keep", sortOfTarget(g, t))
+					g.assert(eq(nm, v))
+					keep = append(keep, saved{t, nm})
+				}
+			}
+		}
+	}
+	before := map[string]string{}
+	for _, k := range keep {
+		before[k.t.Comp] = g.heapTerm(g.cur, k.t.Comp)
+	}
 	var res *Val
 	switch {
 	case isBuiltin(c):
 		res = g.execBuiltin(c, in, args, rt)
 	default:
 		res = g.execUserCall(c, in, recv, args, rt)
+	}
+	changed := map[string]bool{}
+	for comp, h := range before {
+		changed[comp] = g.heapTerm(g.cur, comp) != h
+	}
+	for _, k := range keep {
+		if !changed[k.t.Comp] {
+			continue
+		}
+		h := g.heapTerm(g.cur, k.t.Comp)
+		if k.t.Idx != "" {
+			g.setHeap(g.cur, k.t.Comp, store(h, k.t.Ref, store(sel(h, k.t.Ref), k.t.Idx, k.val)))
+		} else {
+			g.setHeap(g.cur, k.t.Comp, store(h, k.t.Ref, k.val))
+		}
 	}
 	g.noteCall(c, in, res, prefix)
 	return res
@@ -385,7 +443,11 @@ func (g *Gen) applyContract(con *Contract, c *ssa.CallCommon, in ssa.Instruction
 		g.oblige("pre", short+":"+label, t, g.pos(in), "precondition of "+con.Key+": "+cl.Src)
 		g.assume(t)
 	}
-	// results first: a modifies clause may name them (e.g. a freshly returned object)
+	// allocation watermark first (results may be fresh objects), then results: a
+	// modifies clause may name them (e.g. a freshly returned object)
+	if !con.Pure {
+		g.bumpBrk()
+	}
 	res := g.havocVal(rt, "r."+sanitize(short))
 	var results []*Val
 	if res.Tuple != nil {
@@ -414,9 +476,6 @@ func (g *Gen) applyContract(con *Contract, c *ssa.CallCommon, in ssa.Instruction
 			g.materialize(mods[name])
 			s.heap[name] = g.newHeapVersion(name)
 		}
-	}
-	if !con.Pure {
-		g.bumpBrk()
 	}
 	post := g.specCtx(env, g.cur, pre)
 	post.brkBefore = g.ghostTerm(pre, "$brk")
@@ -577,4 +636,12 @@ func (g *Gen) checkFrame(env map[string]*Val, pos token.Pos, site string) {
 		}
 		g.oblige("frame", comp+":"+site, f, pos, "modifies clause: component "+comp+" unchanged outside the declared locations")
 	}
+}
+
+func sortOfTarget(g *Gen, t frameTarget) string {
+	c := g.comps[t.Comp]
+	if t.Idx != "" {
+		return strings.TrimSuffix(strings.TrimPrefix(c.Sort, "(Array Int "), ")")
+	}
+	return c.Sort
 }
